@@ -26,7 +26,7 @@ CORE_FIELDS = {
     "ptr_view": ["text", "toks", "encs", "count", "first", "last", "is_root", "len", "rt"],
     "split_front": ["r"], "split_back": ["r"], "parent": ["r"], "split_at": ["r"], "get": ["r"],
     "rel": ["sw", "ew", "sp", "ss", "ix", "ixr", "cc"],
-    "with": ["text"], "concat": ["text"], "index_str": ["r", "disp"],
+    "with": ["text"], "concat": ["text"], "index_str": ["r", "disp"], "tok_int": ["enc"],
 }
 
 MODEL_ONLY = [0]
@@ -87,7 +87,7 @@ def core_half(tier, seed, log, escalate=False):
             log(f"C20: literals mined from changed source lines {mined['files']}: numbers {mined['nums'][:12]} — used as lengths by the augmentation")
     except Exception as ex:
         mined = None
-    for prop in ("C02", "C03", "C04", "C12", "C13", "C16"):
+    for prop in ("C02", "C03", "C04", "C12", "C13", "C16", "C18"):
         # the whole stream, thinned evenly: a head-limit would keep only the first (exhaustive) block of the first
         # operation and never reach e.g. `from_encoded`, `deser` or the random part
         rc, out = sh([jpgen, prop, tier, str(seed)])
